@@ -317,6 +317,15 @@ of_status_t	of_2d_parity_build_repair_symbol (of_2d_parity_cb_t*		ofcb,
 		OF_PRINT_ERROR(("of_2d_parity_build_repair_symbol: Error, bad esi of encoding symbol (%d)", esi_of_symbol_to_build))
 		goto error;
 	}
+	if (encoding_symbols_tab[esi_of_symbol_to_build] == NULL)
+	{
+		/* as documented in the API, allocate the repair symbol when the application did not */
+		if ((encoding_symbols_tab[esi_of_symbol_to_build] = of_calloc (1, ofcb->encoding_symbol_length)) == NULL)
+		{
+			OF_PRINT_ERROR(("of_2d_parity_build_repair_symbol: Error, no memory\n"))
+			goto error;
+		}
+	}
 	parity_symbol = encoding_symbols_tab[esi_of_symbol_to_build];
 	memset (parity_symbol, 0, ofcb->encoding_symbol_length);
 	col_to_build = of_get_symbol_col ((of_cb_t*)ofcb, esi_of_symbol_to_build);
